@@ -29,6 +29,7 @@ type c09world struct {
 	ij     data.Map
 	bundle soymsg.Bundle
 	gen    *soyjs.Generator
+	common data.Map // globals that independent bundles share (each gets them first, then adds its own)
 }
 
 type c09op struct {
@@ -53,7 +54,9 @@ func c09Build() (*c09world, error) {
 		b = b.AddTemplateString(fmt.Sprintf("f%d.soy", i), f)
 	}
 	// a failure two calls deep (the error text carries the chain of call sites)
-	b = b.AddTemplateString("f2.soy", "{namespace p.three}\n{alias p.one}\n{alias p.two}\n/** @param x */\n{template .failsdeep}\nd{call .failsmid data=\"all\"/}\n{/template}\n/** @param x */\n{template .failsmid}\nm{call two.show/}{call one.fails data=\"all\"/}\n{/template}\n")
+	b = b.AddTemplateString("f2.soy", "{namespace p.three}\n{alias p.one}\n{alias p.two}\n/** @param x */\n{template .failsdeep}\nd{call .failsmid data=\"all\"/}\n{/template}\n/** @param x */\n{template .failsmid}\nm{call two.show/}{call one.fails data=\"all\"/}\n{/template}\n"+
+		// randomInt(1) is always 0: deterministic output from the random source every render shares
+		"/** */\n{template .rnd}\n{foreach $i in [1, 2, 3]}{if randomInt(1) == 0}r{/if}{/foreach}\n{/template}\n")
 	reg, err := b.Compile()
 	if err != nil {
 		return nil, err
@@ -65,6 +68,7 @@ func c09Build() (*c09world, error) {
 	}
 	w.bundle = identityBundleFor(reg)
 	w.gen = soyjs.NewGenerator(reg)
+	w.common = data.Map{"COMMON_ONE": data.Int(1), "COMMON_NAME": data.String("shared")}
 	return w, nil
 }
 
@@ -87,6 +91,7 @@ func c09Ops() []c09op {
 		render("p.two.show", 0, false),
 		render("p.one.fails", 0, false),
 		render("p.three.failsdeep", 0, false),
+		render("p.three.rnd", 0, false),
 		{"js es5 file#0", func(w *c09world) string {
 			var buf bytes.Buffer
 			err := soyjs.Write(&buf, w.reg.SoyFiles[0], soyjs.Options{})
@@ -110,7 +115,7 @@ func c09Ops() []c09op {
 			if gerr != nil {
 				return "globals error " + gerr.Error()
 			}
-			t, err := soy.NewBundle().AddGlobalsMap(g).AddTemplateString("ind.soy", "{namespace ind}\n/** @param x */\n{template .t}\n{msg desc=\"d\"}a{$x}b<b>{$x.yZ}</b>{/msg}{['k': $x, 'j': 1]}{let $b}[{$x.yZ}]{/let}{$b}{IND_A}{IND_B}\n{/template}\n").CompileToTofu()
+			t, err := soy.NewBundle().AddGlobalsMap(w.common).AddGlobalsMap(g).AddTemplateString("ind.soy", "{namespace ind}\n/** @param x */\n{template .t}\n{msg desc=\"d\"}a{$x}b<b>{$x.yZ}</b>{/msg}{['k': $x, 'j': 1]}{let $b}[{$x.yZ}]{/let}{$b}{IND_A}{IND_B}{COMMON_ONE}{COMMON_NAME}\n{/template}\n").CompileToTofu()
 			if err != nil {
 				return "compile error " + err.Error()
 			}
@@ -122,11 +127,12 @@ func c09Ops() []c09op {
 }
 
 func sharedRoots(w *c09world) []any {
-	roots := []any{w.reg, &w.datas, &w.ij, w.bundle, w.gen}
+	roots := []any{w.reg, &w.datas, &w.ij, w.bundle, w.gen, &w.common}
 	return append(roots, packageState()...)
 }
 
 func checkC09(c *Ctx) {
+	digestPoolsOpaque = true
 	snapshotPackageState()
 	ops := c09Ops()
 	// solo reference outputs (fresh world each)
@@ -346,7 +352,7 @@ func digestDiffC09(w *c09world) string {
 		return "?"
 	}
 	b := sharedRoots(fresh)
-	labels := []string{"compiled registry", "caller data", "injected data", "message bundle", "shared generator"}
+	labels := []string{"compiled registry", "caller data", "injected data", "message bundle", "shared generator", "common globals map"}
 	for i := range a {
 		if s, ok := a[i].(string); ok {
 			labels = append(labels, s, s)
